@@ -369,6 +369,9 @@ func (c *c05) exec(t *testing.T, prog *hx.Program, dec *simrt.Decider, verbose b
 				continue
 			}
 			h.s.Logf("op %d %s (arm=%d)", i, op, arm)
+			if verbose && h.log != nil {
+				h.s.Logf("  epochs before: %s writer epoch %d next %d", epochList(h.log.leaderEpochCache.epochOffsets), h.epoch, h.next)
+			}
 			fs0 := h.s.FSHits()
 			if arm > 0 {
 				h.s.CrashAtFS = fs0 + arm
